@@ -80,6 +80,49 @@ def step (_ : Unit) (l : Line) : Unit × String :=
     match l.int? "w", l.int? "k" with
     | some w, some k => out (guardUB (Gen.weekday_sub_assign_ub w k) (toString (Gen.weekday_sub_assign w k))) (toString (Spec.weekdayPlus w (-k)))
     | _, _ => bad
+  | "year_diff" =>
+    match l.int? "a", l.int? "b" with
+    | some a, some b => let r := toString (a - b); out r r
+    | _, _ => bad
+  | "incdec" =>
+    -- ++x, x++ (old*K + new), --x, x-- (old*K + new) [, iso_encoding]: wrap 12 -> 1 / 1 -> 12 for months, 6 -> 0 / 0 -> 6 for
+    -- weekdays (through the generated month_plus / weekday_plus / weekday_minus), plain ±1 for day and year
+    match l.str? "what", l.int? "v" with
+    | some "month", some v =>
+      let up := Gen.month_plus v 1
+      let dn := Gen.month_plus v (-1)
+      let m := s!"{up},{v * 1000 + up},{dn},{v * 1000 + dn}"
+      let su := Spec.monthPlus v 1
+      let sd := Spec.monthPlus v (-1)
+      out m s!"{su},{v * 1000 + su},{sd},{v * 1000 + sd}"
+    | some "weekday", some v =>
+      let up := Gen.weekday_plus v 1
+      let dn := Gen.weekday_minus v 1
+      let iso : Int := if v == 0 then 7 else v
+      let m := s!"{up},{v * 1000 + up},{dn},{v * 1000 + dn},{iso}"
+      let su := Spec.weekdayPlus v 1
+      let sd := Spec.weekdayPlus v (-1)
+      out m s!"{su},{v * 1000 + su},{sd},{v * 1000 + sd},{iso}"
+    | some "day", some v =>
+      let r := s!"{v + 1},{v * 1000 + (v + 1)},{v - 1},{v * 1000 + (v - 1)}"
+      out r r
+    | some "year", some v =>
+      let r := s!"{v + 1},{v * 100000 + (v + 1)},{v - 1},{v * 100000 + (v - 1)}"
+      out r r
+    | _, _ => bad
+  | "oks" =>
+    match l.int? "y", l.int? "m", l.int? "d", l.int? "w", l.int? "i" with
+    | some y, some m, some d, some w, some i =>
+      let mok := decide (1 ≤ m ∧ m ≤ 12)
+      let wok := decide (0 ≤ w ∧ w ≤ 6)        -- weekday{7} is Sunday (the constructor maps 7 to 0)
+      let wok := wok || w == 7
+      let iok := decide (1 ≤ i ∧ i ≤ 5)
+      let yok := y != -32768
+      -- month_day: day within the longest possible length of that month (February: 29)
+      let mdok := mok && decide (1 ≤ d) && decide (d ≤ (if m == 2 then 29 else (Spec.monthLength 2001 m.toNat : Int)))
+      let r := String.join [b2s mdok, b2s (wok && iok), b2s (mok && wok && iok), b2s (mok && wok), b2s (yok && mok), b2s (yok && mok), b2s mok]
+      out r r
+    | _, _, _, _, _ => bad
   -- weekday-indexed dates: no generated model yet; the implementation is compared with the spec (and the spec with std)
   | "ymw" =>
     match l.int? "z" with
